@@ -28,6 +28,8 @@ import (
 	"strconv"
 	"strings"
 	"sync"
+	"syscall"
+	"time"
 	"unicode/utf8"
 
 	"shanhu.io/g/jsonx"
@@ -326,6 +328,8 @@ func (c *ctx) runOp(line string) string {
 		return c.concurrent(ws, line)
 	case "wfile":
 		return c.writeFile(ws, line)
+	case "rpipe":
+		return c.readSpecial(ws, line)
 	case "tojson":
 		if len(line) > 4000 {
 			c.j.Risky(line)
@@ -401,6 +405,102 @@ func (c *ctx) writeFile(ws []string, line string) string {
 		c.rep.Fail(key, fmt.Sprintf("ReadFile after WriteFile of %.80s on a path written before: error %v, value %.80s; the file holds %.120q",
 			want, rerr, raw, got), ops)
 		return "failed"
+	}
+	return "held"
+}
+
+// readSpecial: the text Marshal writes for v, read back through ReadFile and
+// ReadFileMaybeJSON from a named pipe (a goroutine writes the text) and through a symbolic
+// link to a regular file; the result must be what Unmarshal of the same bytes gives.
+func (c *ctx) readSpecial(ws []string, line string) string {
+	v, rest, ok := jx.ParseSpec(ws[1:])
+	if !ok || len(rest) != 0 {
+		return "bad-op"
+	}
+	text, err := jsonx.Marshal(v)
+	if err != nil {
+		return "bad-op"
+	}
+	text = append([]byte(nil), text...)
+	var wantRaw json.RawMessage
+	wantErr := jsonx.Unmarshal(text, &wantRaw)
+	dir := c.work
+	if dir == "" {
+		dir = os.TempDir()
+	}
+	base := filepath.Join(dir, fmt.Sprintf("c07-special-%d", os.Getpid()))
+	check := func(kind string, read func(p string, v interface{}) error, p string) string {
+		var raw json.RawMessage
+		var rerr error
+		done := hx.WithTimeout(10*time.Second, func() { rerr = read(p, &raw) })
+		if !done {
+			c.rep.Fail("readfile-hangs:"+kind, "reading "+kind+" did not return within 10 s", []string{line})
+			return "hang"
+		}
+		if (rerr == nil) != (wantErr == nil) || (rerr == nil && !bytes.Equal(raw, wantRaw)) {
+			c.rep.Fail("readfile-differs-from-unmarshal:"+kind,
+				fmt.Sprintf("reading the %d bytes %.60q from a %s gives error %v, value %.60s; Unmarshal of the same bytes gives error %v, value %.60s",
+					len(text), text, kind, rerr, raw, wantErr, wantRaw), []string{line})
+			return "differs"
+		}
+		return ""
+	}
+	// symbolic link to a regular file
+	file, link := base+".jsonx", base+".link"
+	os.Remove(file)
+	os.Remove(link)
+	defer os.Remove(file)
+	defer os.Remove(link)
+	if err := os.WriteFile(file, text, 0o644); err != nil {
+		return "io-error"
+	}
+	if err := os.Symlink(file, link); err == nil {
+		if r := check("symlink", jsonx.ReadFile, link); r != "" {
+			return r
+		}
+		if r := check("symlink-maybejson", jsonx.ReadFileMaybeJSON, link); r != "" {
+			return r
+		}
+	}
+	// named pipe
+	for _, rd := range []struct {
+		kind string
+		read func(p string, v interface{}) error
+	}{{"fifo", jsonx.ReadFile}, {"fifo-maybejson", jsonx.ReadFileMaybeJSON}} {
+		fifo := base + ".fifo"
+		os.Remove(fifo)
+		if err := syscall.Mkfifo(fifo, 0o600); err != nil {
+			c.rep.Count("file:mkfifo-unavailable")
+			return "held-without-fifo"
+		}
+		wdone := make(chan struct{})
+		go func() {
+			defer close(wdone)
+			w, err := os.OpenFile(fifo, os.O_WRONLY, 0)
+			if err != nil {
+				return
+			}
+			// in two pieces, as a producer would
+			half := len(text) / 2
+			w.Write(text[:half])
+			time.Sleep(time.Millisecond)
+			w.Write(text[half:])
+			w.Close()
+		}()
+		r := check(rd.kind, rd.read, fifo)
+		// release a writer whose reader never opened the pipe
+		select {
+		case <-wdone:
+		case <-time.After(200 * time.Millisecond):
+			if rf, err := os.OpenFile(fifo, os.O_RDONLY|syscall.O_NONBLOCK, 0); err == nil {
+				<-wdone
+				rf.Close()
+			}
+		}
+		os.Remove(fifo)
+		if r != "" {
+			return r
+		}
 	}
 	return "held"
 }
@@ -689,6 +789,22 @@ func main() {
 		for i := 0; i < nwf; i++ {
 			wf(g.g.Value(g.r.Intn(4)))
 		}
+		// the printed text read back from a named pipe and through a symbolic link
+		nsp := 12
+		if f.Thorough() {
+			nsp = 300
+		}
+		special := []interface{}{true, "x", []interface{}{int64(1), "two", nil}, map[string]interface{}{"a": 1.5, "b c": []interface{}{}},
+			strings.Repeat("long ", 2000)}
+		for i := 0; i < nsp; i++ {
+			special = append(special, g.g.Value(g.r.Intn(3)))
+		}
+		for _, v := range special {
+			if sp := specOf(v); sp != "" {
+				g.add("rpipe " + sp)
+				rep.Count("file:pipe-symlink")
+			}
+		}
 		// multi-byte characters at every alignment around the reader's buffer sizes
 		for _, o := range jx.BoundaryOffsets([]int{4096, 8192, 65536}) {
 			for _, ch := range jx.BoundaryRunes {
@@ -762,7 +878,7 @@ func main() {
 	var mops []string
 	var midx []int
 	for i, op := range ops {
-		if !strings.HasPrefix(op, "conc ") && !strings.HasPrefix(op, "wfile ") {
+		if !strings.HasPrefix(op, "conc ") && !strings.HasPrefix(op, "wfile ") && !strings.HasPrefix(op, "rpipe ") {
 			mops = append(mops, op)
 			midx = append(midx, i)
 		}
